@@ -49,6 +49,9 @@ type c19 struct {
 	info *types.Info
 	// writer summaries: func object -> index of the path parameter it opens for writing
 	writers map[*types.Func]int
+	// remover summaries: func object -> indices of its (directory, file name) parameters when its
+	// body removes path.Join(<dir param>, <name param>)
+	removers map[*types.Func][2]int
 }
 
 func runC19(r *Report) {
@@ -77,6 +80,7 @@ func runC19(r *Report) {
 	p := s.Pkgs[modPath]
 	c := &c19{r: r, s: s, p: p, info: p.TypesInfo, writers: map[*types.Func]int{}}
 	c.findWriters()
+	c.findRemovers()
 	ruleTruncate(r, s, "C19/truncate")
 	ruleFSReads(r, s, "C19/reads-enumerated")
 	// "re-running the same invocation changes nothing": the written bytes must be a function of
@@ -172,6 +176,132 @@ func (c *c19) findWriters() {
 			})
 		}
 	}
+}
+
+// findRemovers: wrappers around os.Remove(path.Join(dir, name)) with both parts parameters.
+func (c *c19) findRemovers() {
+	c.removers = map[*types.Func][2]int{}
+	for _, fd := range c.funcDecls() {
+		fobj, _ := c.info.Defs[fd.Name].(*types.Func)
+		if fobj == nil {
+			continue
+		}
+		// the remove must be unconditional: a top-level statement preceded by plain bindings only
+		for _, st := range fd.Body.List {
+			var rhs ast.Expr
+			switch x := st.(type) {
+			case *ast.AssignStmt:
+				if len(x.Rhs) == 1 {
+					rhs = x.Rhs[0]
+				}
+			case *ast.ExprStmt:
+				rhs = x.X
+			case *ast.DeclStmt:
+				continue
+			}
+			if rhs == nil {
+				break // control flow before any remove: not a plain wrapper
+			}
+			if call, ok := ast.Unparen(rhs).(*ast.CallExpr); ok && calleeName(c.info, call) == "os.Remove" && len(call.Args) == 1 {
+				if di, ni, ok := c.joinOfParams(fd, call.Args[0], 0); ok {
+					c.removers[fobj] = [2]int{di, ni}
+				}
+				break
+			}
+		}
+	}
+}
+
+// joinOfParams: e is path.Join(<param i>, <param j>), possibly through one single-assigned local.
+func (c *c19) joinOfParams(fd *ast.FuncDecl, e ast.Expr, depth int) (di, ni int, ok bool) {
+	e = ast.Unparen(e)
+	if call, isCall := e.(*ast.CallExpr); isCall {
+		nm := calleeName(c.info, call)
+		if (nm == "path.Join" || nm == "path/filepath.Join") && len(call.Args) == 2 {
+			d, n := identObj(c.info, call.Args[0]), identObj(c.info, call.Args[1])
+			if d != nil && n != nil {
+				di, ni = paramIndex(c.info, fd, d), paramIndex(c.info, fd, n)
+				if di >= 0 && ni >= 0 {
+					return di, ni, true
+				}
+			}
+		}
+		return 0, 0, false
+	}
+	if id, isId := e.(*ast.Ident); isId && depth < 2 {
+		if _, call, ok := c.singleAssignCall(fd, identObj(c.info, id)); ok && call != nil {
+			return c.joinOfParams(fd, call, depth+1)
+		}
+	}
+	return 0, 0, false
+}
+
+// nameSet: the constant file names an expression can denote: a constant, or the value variable
+// of a `for _, v := range []string{<consts>}` loop of the function.
+func (c *c19) nameSet(fd *ast.FuncDecl, e ast.Expr) ([]string, bool) {
+	if tv := c.info.Types[e]; tv.Value != nil && tv.Value.Kind() == constant.String {
+		return []string{constant.StringVal(tv.Value)}, true
+	}
+	o := identObj(c.info, e)
+	if o == nil {
+		return nil, false
+	}
+	var names []string
+	found := false
+	ast.Inspect(fd.Body, func(n ast.Node) bool {
+		rs, ok := n.(*ast.RangeStmt)
+		if !ok || rs.Value == nil || identObj(c.info, rs.Value) != o && c.info.Defs[identOf(rs.Value)] != o {
+			return true
+		}
+		cl, ok := ast.Unparen(rs.X).(*ast.CompositeLit)
+		if !ok {
+			return true
+		}
+		var ns []string
+		for _, el := range cl.Elts {
+			tv := c.info.Types[el]
+			if tv.Value == nil || tv.Value.Kind() != constant.String {
+				return true
+			}
+			ns = append(ns, constant.StringVal(tv.Value))
+		}
+		// the loop body must not skip elements
+		skip := false
+		ast.Inspect(rs.Body, func(m ast.Node) bool {
+			if b, ok := m.(*ast.BranchStmt); ok && (b.Tok == token.CONTINUE || b.Tok == token.BREAK || b.Tok == token.GOTO) {
+				skip = true
+			}
+			return true
+		})
+		if !skip {
+			names, found = ns, true
+		}
+		return true
+	})
+	return names, found
+}
+
+func identOf(e ast.Expr) *ast.Ident {
+	id, _ := ast.Unparen(e).(*ast.Ident)
+	return id
+}
+
+// removerCall: call is F(dir, name) of a remover with dir a parameter of fd; returns the names.
+func (c *c19) removerCall(fd *ast.FuncDecl, call *ast.CallExpr) (names []string, isRemover, ok bool) {
+	callee, _ := typeutil.Callee(c.info, call).(*types.Func)
+	if callee == nil {
+		return nil, false, false
+	}
+	idx, isR := c.removers[callee]
+	if !isR || idx[0] >= len(call.Args) || idx[1] >= len(call.Args) {
+		return nil, isR, false
+	}
+	d := identObj(c.info, call.Args[idx[0]])
+	if d == nil || paramIndex(c.info, fd, d) < 0 {
+		return nil, true, false
+	}
+	names, ok = c.nameSet(fd, call.Args[idx[1]])
+	return names, true, ok
 }
 
 func (c *c19) truncate() {
@@ -270,11 +400,24 @@ func (c *c19) eventsOf(fd *ast.FuncDecl, n ast.Node) (evs []c19event, bad []stri
 			return true
 		}
 		nm := calleeName(c.info, call)
+		if fo, _ := c.info.Defs[fd.Name].(*types.Func); nm == "os.Remove" && c.isRemover(fo) {
+			return true // the wrapper itself: its call sites carry the events
+		}
 		if nm == "os.Remove" && len(call.Args) == 1 {
 			if name, _, ok := c.ownedName(fd, call.Args[0], 0); ok {
 				evs = append(evs, c19event{"remove", name, call.Pos()})
 			} else {
 				bad = append(bad, "os.Remove("+types.ExprString(call.Args[0])+") is not path.Join(<outDir param>, <const>)")
+			}
+			return true
+		}
+		if names, isR, ok := c.removerCall(fd, call); isR {
+			if ok {
+				for _, nm := range names {
+					evs = append(evs, c19event{"remove", nm, call.Pos()})
+				}
+			} else {
+				bad = append(bad, types.ExprString(call)+" does not remove path.Join(<outDir param>, <const names>)")
 			}
 			return true
 		}
@@ -425,6 +568,9 @@ func (c *c19) removeErrors(fd *ast.FuncDecl, fkey string) {
 	check := func(list []ast.Stmt, i int, call *ast.CallExpr, errObj types.Object) {
 		name, _, _ := c.ownedName(fd, call.Args[0], 0)
 		key := fkey + ":os.Remove(" + name + ")"
+		if c.isRemoverCall(call) {
+			key = fkey + ":" + types.ExprString(call.Fun) + "(" + argStr(call) + ")"
+		}
 		if errObj == nil {
 			c.r.Violation("C19/error-not-swallowed", key, c.s.pos(call.Pos()), "error of os.Remove is discarded: a stale file that cannot be removed would go unnoticed")
 			return
@@ -449,7 +595,7 @@ func (c *c19) removeErrors(fd *ast.FuncDecl, fkey string) {
 			switch st := st.(type) {
 			case *ast.AssignStmt:
 				if len(st.Rhs) == 1 {
-					if call, ok := st.Rhs[0].(*ast.CallExpr); ok && calleeName(c.info, call) == "os.Remove" && len(call.Args) == 1 {
+					if call, ok := st.Rhs[0].(*ast.CallExpr); ok && (calleeName(c.info, call) == "os.Remove" && len(call.Args) == 1 || c.isRemoverCall(call)) {
 						var eo types.Object
 						if len(st.Lhs) == 1 {
 							if id, ok := st.Lhs[0].(*ast.Ident); ok && id.Name != "_" {
@@ -460,7 +606,7 @@ func (c *c19) removeErrors(fd *ast.FuncDecl, fkey string) {
 					}
 				}
 			case *ast.ExprStmt:
-				if call, ok := st.X.(*ast.CallExpr); ok && calleeName(c.info, call) == "os.Remove" && len(call.Args) == 1 {
+				if call, ok := st.X.(*ast.CallExpr); ok && (calleeName(c.info, call) == "os.Remove" && len(call.Args) == 1 || c.isRemoverCall(call)) {
 					check(list, i, call, nil)
 				}
 			case *ast.IfStmt:
@@ -495,6 +641,11 @@ func (c *c19) removeErrors(fd *ast.FuncDecl, fkey string) {
 		}
 	}
 	visit(fd.Body.List)
+}
+
+func (c *c19) isRemoverCall(call *ast.CallExpr) bool {
+	callee, _ := typeutil.Callee(c.info, call).(*types.Func)
+	return c.isRemover(callee)
 }
 
 // condTestsErr: cond is `err != nil` possibly && !os.IsNotExist(err)
@@ -688,6 +839,26 @@ func (c *c19) pathSensitive(fd *ast.FuncDecl, fkey string, files []string) {
 				}
 			}
 		}
+		// a range over a non-empty constant literal runs its body at least once: the
+		// head→done edge is feasible only after the body was entered
+		if b.Kind == cfg.KindRangeLoop && len(b.Succs) == 2 {
+			if rs, ok := b.Stmt.(*ast.RangeStmt); ok {
+				if cl, ok := ast.Unparen(rs.X).(*ast.CompositeLit); ok && len(cl.Elts) > 0 {
+					lk := fmt.Sprintf("loop@%d", rs.Pos())
+					body, done := b.Succs[0], b.Succs[1]
+					if body.Kind != cfg.KindRangeBody {
+						body, done = done, body
+					}
+					s1 := clone(s)
+					s1.cond[lk] = 1
+					walk(body, s1)
+					if s.cond[lk] == 1 {
+						walk(done, s)
+					}
+					return
+				}
+			}
+		}
 		for _, nb := range b.Succs {
 			walk(nb, s)
 		}
@@ -739,6 +910,24 @@ func (c *c19) ownerOnly() {
 						return true
 					}
 					nm := calleeName(p.TypesInfo, call)
+					if path == modPath {
+						if names, isR, ok := c.removerCall(fd, call); isR {
+							n++
+							k := fkey + ":" + types.ExprString(call.Fun)
+							bad := ""
+							for _, nm := range names {
+								if _, owned := c19Polarity[nm]; !owned {
+									bad = nm
+								}
+							}
+							if ok && bad == "" {
+								c.r.OK("C19/owner-only", k+"("+strings.Join(names, ",")+")", c.s.pos(call.Pos()), "remove wrapper called with the output directory and owned names")
+							} else {
+								c.r.Violation("C19/owner-only", k+"("+argStr(call)+")", c.s.pos(call.Pos()), "remove wrapper called with something other than (<outDir param>, <owned constant names>): a file goag does not own may be removed")
+							}
+							return true
+						}
+					}
 					if !c19Mutators[nm] {
 						return true
 					}
@@ -746,6 +935,8 @@ func (c *c19) ownerOnly() {
 					key := fkey + ":" + nm
 					pos := c.s.pos(call.Pos())
 					switch {
+					case path == modPath && nm == "os.Remove" && c.isRemover(fobj):
+						c.r.OK("C19/owner-only", key+"(wrapper)", pos, "remove wrapper: removes path.Join(<dir>, <name>) of its parameters; its call sites are judged")
 					case path == modPath && nm == "os.Remove":
 						if name, _, ok := c.ownedName(fd, call.Args[0], 0); ok {
 							c.r.OK("C19/owner-only", key+"("+name+")", pos, "remove of an owned name")
@@ -781,7 +972,12 @@ func (c *c19) ownerOnly() {
 		}
 	}
 	c.r.Analysed["fs_mutator_call_sites"] = n
-	c.r.FloorMin("file-system mutator call sites reachable from Generate", n, 8)
+	c.r.FloorMin("file-system mutator call sites reachable from Generate", n, 5)
+}
+
+func (c *c19) isRemover(f *types.Func) bool {
+	_, ok := c.removers[f]
+	return f != nil && ok
 }
 
 func argStr(call *ast.CallExpr) string {
